@@ -170,15 +170,15 @@ def sync (st : State) (t : Nat) (fn act res : String) : Except String State := d
   | .wAddLock, "Lock(mu)" => go (.addLock t)
   | .wAddUnlock _, "Unlock(mu)" => do checkSnap st res; go (.addUnlock t)
   | .wUnlockL _, "Unlock(L)" => go (.waitUnlockL t)
-  | .wSelect _, "Select:Recv(ch)" => go (.selRecv t)
+  | .wSelect _, "Select:Recv($)" => go (.selRecv t)
   | .wSelect _, "Select:Recv(ctx.Done())" => do
     let s1 ← ctxSeen s t
     let s' ← fire s1 t (.selCtx t) act
     pure { st with m := s' }
   | .wCtxLock _, "Lock(mu)" => go (.ctxLock t)
-  | .wInner _, "Select:Recv(ch)" => go (.innerRecv t)
+  | .wInner _, "Select:Recv($)" => go (.innerRecv t)
   | .wInner _, "Select:default" => go (.innerDefault t)
-  | .wFwdSend _ _, "Send(ch)" => go (.fwdSend t)
+  | .wFwdSend _ _, "Send($)" => go (.fwdSend t)
   | .wCtxErr _, "ctx.Err" =>
     if res = "nil" then .error s!"thread {t}: ctx.Err() = nil after the ctx.Done() arm was taken"
     else go (.ctxErr t)
@@ -186,11 +186,11 @@ def sync (st : State) (t : Nat) (fn act res : String) : Except String State := d
   | .wRelock _, "Lock(L)" => go (.relockL t)
   -- Signal
   | .sLock, "Lock(mu)" => go (.sLock t)
-  | .sSend _, "Send(ch)" => go (.sSend t)
+  | .sSend _, "Send($)" => go (.sSend t)
   | .sUnlock, "Unlock(mu)" => do checkSnap st res; go (.sUnlock t)
   -- Broadcast
   | .bLock, "Lock(mu)" => go (.bLock t)
-  | .bSend _, "Send(ch)" => go (.bSend t)
+  | .bSend _, "Send($)" => go (.bSend t)
   | .bUnlock, "Unlock(mu)" => do checkSnap st res; go (.bUnlock t)
   | _, _ => bad
 
